@@ -239,6 +239,8 @@ func (s *session) define(i int, e Ev) string {
 			"package p%d\n\nvar S int\n\nfunc mkb() int { return %d }\n\nvar Bv = mkb()\n\nfunc N(x int) int { S++; return x*%d + Bv + S }\n", i, e.B, e.A))}
 		srcs = []string{fmt.Sprintf("import \"p%d\"", i)}
 	}
+	// the host obtains the function value of every definition when it is made
+	handle = useFn(i, e.Kind, e.Var)
 	for _, src := range srcs {
 		if _, out := s.eval(src); out != "" {
 			return out
@@ -337,6 +339,25 @@ func evalGIDs(buf *[]byte) map[int64]bool {
 	}
 }
 
+// allGIDs returns the ids of all goroutines alive.
+func allGIDs(buf *[]byte) map[int64]bool {
+	for {
+		n := runtime.Stack(*buf, true)
+		if n == len(*buf) {
+			*buf = make([]byte, 2*len(*buf))
+			continue
+		}
+		out := map[int64]bool{}
+		for _, blk := range bytes.Split((*buf)[:n], []byte("\n\n")) {
+			if m := gidRe.FindSubmatch(blk); m != nil {
+				id, _ := strconv.ParseInt(string(m[1]), 10, 64)
+				out[id] = true
+			}
+		}
+		return out
+	}
+}
+
 // evalGoroutines returns the status of every goroutine started by EvalWithContext that is still alive.
 func evalGoroutines(buf *[]byte) []string {
 	for {
@@ -394,6 +415,13 @@ func (s *session) cancelled(kind string, n int) (string, string) {
 	settleEval()
 	base := evalGoroutines(&stackBuf) // goroutines leaked by earlier cancelled evaluations (none on the unchanged tree)
 	baseIDs := evalGIDs(&stackBuf)
+	preAll := allGIDs(&stackBuf)
+	if kind == "expired" {
+		// count the operations per goroutine: did the evaluation execute anything at all?
+		s.mu.Lock()
+		s.capture, s.opsBy = true, map[int64]int{}
+		s.mu.Unlock()
+	}
 	ctx, cancel := context.WithCancel(context.Background())
 	defer cancel()
 	var src string
@@ -552,6 +580,11 @@ func (s *session) cancelled(kind string, n int) (string, string) {
 	if kind != "expired" {
 		return kind, note
 	}
+	defer func() {
+		s.mu.Lock()
+		s.capture = false
+		s.mu.Unlock()
+	}()
 	if completed {
 		return "completed", note
 	}
@@ -564,6 +597,20 @@ func (s *session) cancelled(kind string, n int) (string, string) {
 			return len(r) == 1 && r[0].Kind() == reflect.Int && r[0].Int() == 0
 		}()
 		if stale {
+			// did the evaluation run (and finish just before stop()), or did stop() run although nothing of the
+			// evaluation was ever executed (it never reached Execute)? The second cannot happen with the unchanged source.
+			s.mu.Lock()
+			s.capture = false
+			ran := 0
+			for id, n := range s.opsBy {
+				if !preAll[id] {
+					ran += n
+				}
+			}
+			s.mu.Unlock()
+			if ran == 0 {
+				return "expn", note
+			}
 			return "expl", note
 		}
 	}
@@ -579,14 +626,15 @@ func (s *session) cancelled(kind string, n int) (string, string) {
 }
 
 // runHistory runs the history; cancels = false gives the reference (twin) run.
-func runHistory(h History, cancels bool) (results []string, line string, finalID uint64, notes []string) {
+func runHistory(h History, cancels bool) (results []string, line string, finalID uint64, notes []string, resolved map[int]string) {
+	resolved = map[int]string{}
 	s := newSession()
 	interp.VerifSetStepHook(s.hook)
 	defer interp.VerifSetStepHook(nil) // the hook is removed after every case
 	kinds, variants := map[int]string{}, map[int]string{}
 	ndef, ncancel := 0, 0
 	var parts []string
-	for _, e := range h.Evs {
+	for ei, e := range h.Evs {
 		held := s.release != nil // a held evaluation is released when the event after it is over
 		switch e.Op {
 		case "def":
@@ -609,6 +657,7 @@ func runHistory(h History, cancels bool) (results []string, line string, finalID
 			}
 			s.mu.Unlock()
 			k, note := s.cancelled(e.Kind, ncancel)
+			resolved[ei] = k
 			ncancel++
 			if note != "" {
 				notes = append(notes, "cancelled evaluation: "+note)
@@ -637,7 +686,7 @@ func runHistory(h History, cancels bool) (results []string, line string, finalID
 		finalID = s.ops[n-1].rid
 	}
 	s.mu.Unlock()
-	return results, "C10 hist " + strings.Join(parts, " "), finalID, notes
+	return results, "C10 hist " + strings.Join(parts, " "), finalID, notes, resolved
 }
 
 // ---- classes and generation -------------------------------------------------------------------------
@@ -648,7 +697,12 @@ func runHistory(h History, cancels bool) (results []string, line string, finalID
 //
 // F10-3: a direct call by the host of a function value whose body blocks on a channel, with a cancelled evaluation
 // and no evaluation since (definitions and uses through Eval / EvalWithContext are evaluations; host calls are not).
-func classOf(h History, u int) string {
+//
+// An evaluation under an already expired context resolves at run time (resolved[i]) to one of: stop() before Execute
+// started (expb) or while it ran (expa) — both leave the root frame current —, stop() after Execute had returned (expl,
+// the second form of F10-1), or stop() although nothing of the evaluation was ever executed (expn): the last cannot
+// happen with the unchanged source and has a class of its own, which is not listed.
+func classOf(h History, u int, resolved map[int]string) string {
 	e := h.Evs[u]
 	if e.Via != "host" {
 		return ""
@@ -662,6 +716,9 @@ func classOf(h History, u int) string {
 		x := h.Evs[i]
 		if x.Op == "cancel" {
 			if x.Kind == "expired" {
+				if resolved[i] == "expn" {
+					return "host-call-after-stop-without-execute"
+				}
 				return "host-call-after-late-stop"
 			}
 			break
@@ -707,7 +764,9 @@ func variantOf(r *rand.Rand, k string) string {
 	return ""
 }
 
-func hostCallable(k string) bool { return k == "wrapper" || k == "closure" || k == "mvfunc" }
+// every kind of definition yields a function value the host can hold (a declared function, a method value T{}.M and
+// a function of an imported package are wrapped when the handle is evaluated)
+func hostCallable(k string) bool { return true }
 
 // genHistory: definitions may come at any point (also after cancelled evaluations: imports after a cancellation,
 // closures made between two cancellations); holds = allow held cancelled evaluations (the F10-1 window).
@@ -738,7 +797,7 @@ func genHistory(r *rand.Rand, holds bool) History {
 		}
 		d := r.Intn(len(ks))
 		via := []string{"eval", "eval", "evalctx"}[r.Intn(3)]
-		if ks[d] == "wrapper" || (hostCallable(ks[d]) && r.Intn(2) == 0) {
+		if ks[d] == "wrapper" || ((ks[d] == "closure" || ks[d] == "mvfunc") && r.Intn(2) == 0) || (hostCallable(ks[d]) && r.Intn(4) == 0) {
 			via = "host"
 		}
 		h.Evs = append(h.Evs, Ev{Op: "use", D: d, Via: via, X: 1 + r.Intn(9)})
@@ -778,6 +837,14 @@ func regressionHistories() []History {
 		// ba001d8: goroutine + channel work in a plain Eval (and through the host) after cancellations
 		{Evs: []Ev{d("named", "chan", 3, 2), d("wrapper", "chan", 2, 5), u(0, "eval", 4), u(1, "host", 1), c("loop"), u(0, "eval", 4), u(1, "host", 1), u(0, "evalctx", 2),
 			c("chan"), u(0, "eval", 7), u(1, "host", 3)}},
+		// an evaluation under an already expired context, then direct host calls of function values of every kind made
+		// earlier — host-first (no evaluation in between) and Eval-first
+		{Evs: []Ev{d("named", "", 2, 3), d("method", "", 3, 1), d("closure", "", 5, 2), d("closure", "field", 3, 1), d("closure", "map", 2, 7), d("mvtop", "", 4, 4),
+			d("mvfunc", "", 7, 1), d("mvfunc", "map", 2, 2), d("wrapper", "", 3, 1), d("imported", "", 2, 9), u(8, "host", 4), c("expired"),
+			u(0, "host", 1), u(1, "host", 2), u(2, "host", 3), u(3, "host", 4), u(4, "host", 5), u(5, "host", 6), u(6, "host", 7), u(7, "host", 8), u(8, "host", 9), u(9, "host", 1),
+			u(2, "eval", 3), u(8, "host", 4), c("expired"), c("expired"), u(6, "host", 1), u(9, "host", 2)}},
+		{Evs: []Ev{d("named", "", 2, 3), d("closure", "maker", 5, 2), d("closure", "nested", 3, 1), d("mvfunc", "", 7, 1), d("wrapper", "chan", 3, 1), d("method", "", 1, 5), c("expired"),
+			u(0, "eval", 1), u(1, "host", 2), u(2, "host", 3), u(3, "host", 4), u(4, "host", 5), u(5, "host", 6), u(0, "host", 7), c("loop"), c("expired"), u(1, "evalctx", 1), u(4, "host", 2), u(3, "host", 3)}},
 		// definitions made between two cancellations
 		{Evs: []Ev{d("named", "", 2, 2), c("loop"), d("closure", "map", 3, 3), d("wrapper", "", 1, 6), u(1, "host", 2), c("expired"), u(1, "eval", 2), u(2, "host", 5), u(1, "host", 2)}},
 	}
@@ -802,8 +869,8 @@ func main() {
 
 	// check evaluates one history on all four sides and records the comparison.
 	check := func(h History, count bool) (firstDiff string) {
-		impl, line, id, notes := runHistory(h, true)
-		ref, _, _, rnotes := runHistory(h, false)
+		impl, line, id, notes, resolved := runHistory(h, true)
+		ref, _, _, rnotes, _ := runHistory(h, false)
 		for _, n := range append(notes, rnotes...) {
 			run.Errorf("history %s: %s", line, n)
 		}
@@ -872,7 +939,7 @@ func main() {
 				continue
 			}
 			if ui < len(impl) && ui < len(ref) && impl[ui] != ref[ui] {
-				cls := classOf(h, i)
+				cls := classOf(h, i, resolved)
 				if count {
 					run.Hit("use-differs:" + e.Via)
 				}
